@@ -127,6 +127,85 @@ Theorem C02_returned_is_recorded : forall c s k,
 Proof. exact step_ret. Qed.
 Print Assumptions C02_returned_is_recorded.
 
+(* ---- body limits / body access changed per transaction by ctl (machine tb_step / tb_run) ---- *)
+
+(* tb_step is tp_step except that the four body calls use the settings ctl:requestBodyLimit /
+   responseBodyLimit / requestBodyAccess / responseBodyAccess of earlier matched rules left behind
+   (tp_body_of); without such ctls it IS tp_step *)
+Theorem C02_ctl_body_conservative : forall c s k, tb_step c [] s k = tp_step c s k.
+Proof. exact tb_step_nil. Qed.
+Print Assumptions C02_ctl_body_conservative.
+
+(* the ctl takes effect while the request (response) headers phase has not been passed, later it is ignored *)
+Theorem C02_ctl_body_effect : forall p b n a,
+  b_reqlim (tp_exec_bctl1 p b (BReqLimit n)) = (if p <=? 1 then n else b_reqlim b) /\
+  b_resplim (tp_exec_bctl1 p b (BRespLimit n)) = (if p <=? 3 then n else b_resplim b) /\
+  b_reqacc (tp_exec_bctl1 p b (BReqAcc a)) = (if p <=? 1 then a else b_reqacc b) /\
+  b_respacc (tp_exec_bctl1 p b (BRespAcc a)) = (if p <=? 3 then a else b_respacc b).
+Proof. exact bctl_effect. Qed.
+Print Assumptions C02_ctl_body_effect.
+
+(* with such ctls, for every configuration and every call list: the first interruption is still the first
+   interrupting event of the history, it is final, and only logging-phase evaluations follow it *)
+Theorem C02_ctl_body_first_disruptive : forall c bm ks,
+  st_intr (tb_run c bm ks) = tp_first_intr MOn (st_trace (tb_run c bm ks)).
+Proof. exact tb_first_disruptive_holds. Qed.
+Print Assumptions C02_ctl_body_first_disruptive.
+
+Theorem C02_ctl_body_interruption_final : forall c bm s k i,
+  st_intr s = Some i -> st_intr (fst (tb_step c bm s k)) = Some i.
+Proof. exact tb_interruption_final_step. Qed.
+Print Assumptions C02_ctl_body_interruption_final.
+
+Theorem C02_ctl_body_interruption_final_run : forall c bm ks ks' i,
+  st_intr (tb_run c bm ks) = Some i -> st_intr (tb_run c bm (ks ++ ks')) = Some i.
+Proof. exact tb_interruption_final_run. Qed.
+Print Assumptions C02_ctl_body_interruption_final_run.
+
+Theorem C02_ctl_body_no_eval_after_interrupt : forall c bm ks t1 t2,
+  st_trace (tb_run c bm ks) = t1 ++ t2 -> tp_first_intr MOn t1 <> None ->
+  Forall (fun e => tp_late_ok e = true) t2.
+Proof. exact tb_no_eval_after_interrupt_holds. Qed.
+Print Assumptions C02_ctl_body_no_eval_after_interrupt.
+
+(* a write that reaches the transaction's CURRENT limit (WAF-wide or set by ctl) under Reject records and
+   returns the interruption with the right status (413 request, 500 response) and buffers nothing; the
+   engine mode is not looked at (finding F12 kept as it is) *)
+Theorem C02_ctl_limit_reject_request : forall c bm s n,
+  let b := tp_body_of c bm (st_trace s) in
+  is_off s = false -> b_reqacc b = true -> c_reqact c = LReject -> st_intr s = None ->
+  b_reqlim b <> st_reqlen s -> (b_reqlim b <= st_reqlen s + n)%Z ->
+  let r := tb_step c bm s (KWReq n) in
+  st_intr (fst r) = Some (mkIntr 0 KDeny 413 []) /\
+  tp_ret_intr (snd r) = Some (mkIntr 0 KDeny 413 []) /\ st_reqlen (fst r) = st_reqlen s.
+Proof. exact tb_limit_reject_req. Qed.
+Print Assumptions C02_ctl_limit_reject_request.
+
+Theorem C02_ctl_limit_reject_response : forall c bm s n,
+  let b := tp_body_of c bm (st_trace s) in
+  is_off s = false -> b_respacc b = true -> c_respact c = LReject -> st_intr s = None ->
+  b_resplim b <> st_resplen s -> (b_resplim b <= st_resplen s + n)%Z ->
+  let r := tb_step c bm s (KWResp n) in
+  st_intr (fst r) = Some (mkIntr 0 KDeny 500 []) /\
+  tp_ret_intr (snd r) = Some (mkIntr 0 KDeny 500 []) /\ st_resplen (fst r) = st_resplen s.
+Proof. exact tb_limit_reject_resp. Qed.
+Print Assumptions C02_ctl_limit_reject_response.
+
+(* below the current limit nothing is recorded or evaluated; with access switched off the write is ignored *)
+Theorem C02_ctl_limit_below : forall c bm s n,
+  let b := tp_body_of c bm (st_trace s) in
+  is_off s = false -> b_reqacc b = true -> b_reqlim b <> st_reqlen s -> (st_reqlen s + n < b_reqlim b)%Z ->
+  let r := tb_step c bm s (KWReq n) in
+  st_intr (fst r) = st_intr s /\ st_reqlen (fst r) = (st_reqlen s + n)%Z /\ st_trace (fst r) = st_trace s.
+Proof. exact tb_limit_below_req. Qed.
+Print Assumptions C02_ctl_limit_below.
+
+Theorem C02_ctl_access_off : forall c bm s n,
+  b_reqacc (tp_body_of c bm (st_trace s)) = false ->
+  fst (tb_step c bm s (KWReq n)) = s /\ tp_ret_intr (snd (tb_step c bm s (KWReq n))) = None.
+Proof. exact tb_access_off. Qed.
+Print Assumptions C02_ctl_access_off.
+
 (* ---- afterwards only logging-phase rules run ---- *)
 
 (* for every call list: whatever follows the first interrupting event in the history is a
